@@ -44,6 +44,36 @@ package stakepool
 //@   trusted
 //@   modifies nothing
 
+// ---------------------------------------------------------------- killing a stake pool (C23)
+
+// emits one delegate-pool update event per pool (reads only)
+//@ func (*StakePool).EmitStakePoolBalanceUpdate
+//@   trusted
+//@   modifies nothing
+
+// Slashing touches delegate balances only: no pool is added or removed, no reward changes, the
+// provider's own reward and the dead flag stay as they are.
+//@ func (*StakePool).SlashFraction
+//@   prop C23
+//@   requires sp != nil && poolsMapOK(sp)
+//@   ensures[pools-kept] sp.Pools == old(sp.Pools) && (forall k string :: ((k in sp.Pools) == old(k in sp.Pools)) && sp.Pools[k] == old(sp.Pools[k]))
+//@   ensures[rewards-untouched] sp.Reward == old(sp.Reward) && (forall k string :: k in sp.Pools ==> sp.Pools[k].Reward == old(sp.Pools[k].Reward))
+//@   ensures sp.HasBeenKilled == old(sp.HasBeenKilled)
+//@   modifies any(DelegatePool).Balance
+//@   loop 1 header "for _, id := range orderedPoolIds"
+//@   loop 1 invariant sp.Pools == old(sp.Pools) && sp.HasBeenKilled == old(sp.HasBeenKilled) && sp.Reward == old(sp.Reward)
+//@   loop 1 invariant forall k string :: ((k in sp.Pools) == old(k in sp.Pools)) && sp.Pools[k] == old(sp.Pools[k])
+//@   loop 1 invariant forall k string :: k in sp.Pools ==> sp.Pools[k].Reward == old(sp.Pools[k].Reward)
+
+// Kill marks the stake pool dead - whatever the slash outcome - and slashes it.
+//@ func (*StakePool).Kill
+//@   prop C23
+//@   requires sp != nil && poolsMapOK(sp)
+//@   ensures[marked-dead] sp.HasBeenKilled
+//@   ensures[pools-kept] sp.Pools == old(sp.Pools) && (forall k string :: ((k in sp.Pools) == old(k in sp.Pools)) && sp.Pools[k] == old(sp.Pools[k]))
+//@   ensures[rewards-untouched] sp.Reward == old(sp.Reward) && (forall k string :: k in sp.Pools ==> sp.Pools[k].Reward == old(sp.Pools[k].Reward))
+//@   modifies sp.HasBeenKilled, any(DelegatePool).Balance
+
 // ---------------------------------------------------------------- reward distribution (C10)
 
 // A killed provider, or a zero reward, changes nothing. Otherwise only rewards move: the
